@@ -133,13 +133,16 @@ func (t *Tape) Bytes(n int) []byte {
 
 // U16 draws a 16-bit value biased to interesting values; 0 simplest.
 func (t *Tape) U16() uint16 {
-	switch t.Pick(3, 2, 1) {
+	switch t.Pick(3, 2, 1, 1) {
 	case 0:
 		return uint16(t.Choose(65536))
 	case 1:
 		return uint16(t.Choose(300))
-	default:
+	case 2:
 		return uint16(65535 - t.Choose(300))
+	default:
+		// the values installations actually use and the ones where representations change: 0 first (simplest)
+		return []uint16{0, 1, 0xFFFF, 0x00FF, 0x0100, 0x7FFF, 0x8000, 0xFF00, 255, 256, 40001 % 65536, 9999}[t.Choose(12)]
 	}
 }
 
